@@ -115,6 +115,10 @@ func isIOWriter(e ast.Expr) bool {
 
 // usesWriter: the call passes one of the writer identifiers as an argument or calls a method on it
 func usesWriter(c *ast.CallExpr, ws map[string]bool) bool {
+	// a local closure that captures the writer (`put := func(s string) error { … w … }`) is a write helper
+	if id, ok := c.Fun.(*ast.Ident); ok && ws["closure:"+id.Name] {
+		return true
+	}
 	for _, a := range c.Args {
 		if id, ok := a.(*ast.Ident); ok && ws[id.Name] {
 			return true
@@ -184,6 +188,29 @@ func writeSites(repo, out string) error {
 				if len(ws) == 0 {
 					continue
 				}
+				// local closures whose body uses the writer
+				ast.Inspect(fn.Body, func(n ast.Node) bool {
+					as, ok := n.(*ast.AssignStmt)
+					if !ok || len(as.Lhs) != 1 || len(as.Rhs) != 1 {
+						return true
+					}
+					fl, ok := as.Rhs[0].(*ast.FuncLit)
+					id, ok2 := as.Lhs[0].(*ast.Ident)
+					if !ok || !ok2 {
+						return true
+					}
+					uses := false
+					ast.Inspect(fl.Body, func(m ast.Node) bool {
+						if c, ok := m.(*ast.CallExpr); ok && usesWriter(c, ws) {
+							uses = true
+						}
+						return !uses
+					})
+					if uses {
+						ws["closure:"+id.Name] = true
+					}
+					return true
+				})
 				checked := map[*ast.CallExpr]bool{}
 				var calls []*ast.CallExpr
 				// classify by statement shape
@@ -218,9 +245,18 @@ func writeSites(repo, out string) error {
 						}
 					case *ast.AssignStmt:
 						if len(st.Rhs) == 1 {
+							if fl, ok := st.Rhs[0].(*ast.FuncLit); ok {
+								walkBlock(fl.Body.List)
+							}
 							if c, ok := st.Rhs[0].(*ast.CallExpr); ok && usesWriter(c, ws) {
 								if ifs, ok := next.(*ast.IfStmt); ok && ifs.Init == nil {
 									if name, ok := isErrNotNil(ifs.Cond); ok && name == lastLHSName(st) && bodyReturns(ifs.Body) {
+										checked[c] = true
+									}
+								}
+								// `_, err := f(w, …)` directly followed by `return err` / `return …, err`
+								if rs, ok := next.(*ast.ReturnStmt); ok && len(rs.Results) > 0 {
+									if id, ok := rs.Results[len(rs.Results)-1].(*ast.Ident); ok && id.Name == lastLHSName(st) && id.Name != "_" {
 										checked[c] = true
 									}
 								}
@@ -294,18 +330,27 @@ func typeSwitch(repo, out string) error {
 	type arm struct{ typ, assign string }
 	var arms []arm
 	found := false
+	// every type switch in the core package that has a Stringer arm (wherever a refactoring moved it)
 	for _, f := range files {
 		for _, d := range f.Decls {
 			fn, ok := d.(*ast.FuncDecl)
-			if !ok || fn.Name.Name != "Update" || fn.Recv == nil || fn.Body == nil {
-				continue
-			}
-			if !strings.Contains(src(fn.Recv.List[0].Type), "Cell") {
+			if !ok || fn.Body == nil {
 				continue
 			}
 			ast.Inspect(fn.Body, func(n ast.Node) bool {
 				ts, ok := n.(*ast.TypeSwitchStmt)
 				if !ok || found {
+					return true
+				}
+				hasStringer := false
+				for _, c := range ts.Body.List {
+					for _, t := range c.(*ast.CaseClause).List {
+						if src(t) == "Stringer" {
+							hasStringer = true
+						}
+					}
+				}
+				if !hasStringer {
 					return true
 				}
 				found = true
@@ -321,8 +366,11 @@ func typeSwitch(repo, out string) error {
 					}
 					assign := ""
 					for _, s := range cc.Body {
-						if as, ok := s.(*ast.AssignStmt); ok && len(as.Lhs) == 1 && src(as.Lhs[0]) == "c.str" {
+						if as, ok := s.(*ast.AssignStmt); ok && len(as.Lhs) == 1 && strings.HasSuffix(src(as.Lhs[0]), "str") {
 							assign = src(as.Rhs[0])
+						}
+						if rs, ok := s.(*ast.ReturnStmt); ok && len(rs.Results) == 1 && assign == "" {
+							assign = src(rs.Results[0])
 						}
 					}
 					arms = append(arms, arm{typ, assign})
@@ -334,7 +382,7 @@ func typeSwitch(repo, out string) error {
 	var b strings.Builder
 	b.WriteString("-- GENERATED by extract/ from /repo on every check; do not edit.\nnamespace Tab.Generated\n")
 	fmt.Fprintf(&b, "def typeSwitchFound : Bool := %v\n", found)
-	b.WriteString("/-- (case type, expression assigned to c.str in that arm) in source order -/\n")
+	b.WriteString("/-- (case type, expression assigned to the cell text in that arm) in source order -/\n")
 	b.WriteString("def typeSwitchArms : List (String × String) := [\n")
 	for i, a := range arms {
 		sep := ","
@@ -513,6 +561,7 @@ func globals(repo, out string) error {
 		}
 		rel, _ := filepath.Rel(repo, dir)
 		names := map[string]*gv{}
+		pkgObjs := map[*ast.Object]bool{}
 		var order []string
 		for _, f := range files {
 			for _, d := range f.Decls {
@@ -528,6 +577,9 @@ func globals(repo, out string) error {
 						}
 						names[n.Name] = &gv{pkg: rel, name: n.Name}
 						order = append(order, n.Name)
+						if n.Obj != nil {
+							pkgObjs[n.Obj] = true
+						}
 					}
 				}
 			}
@@ -559,59 +611,106 @@ func globals(repo, out string) error {
 						}
 					}
 				}
-				// lock tracking for the registry: positions of Lock/Unlock calls on each global
-				lockPos := map[string][]token.Pos{}
-				unlockPos := map[string][]token.Pos{}
-				deferUnlock := map[string]token.Pos{}
+				// lock regions: between X.Lock()/RLock() and the following X.Unlock()/RUnlock() (or to the end
+				// of the function when the unlock is deferred), for any X rooted at a package-level variable
+				type region struct {
+					from, to token.Pos
+					shared   bool // RLock: readers may run concurrently
+				}
+				var regions []region
+				var locks []region
 				deferred := map[*ast.CallExpr]bool{}
+				hasDeferUnlock := false
 				ast.Inspect(fn.Body, func(n ast.Node) bool {
 					switch st := n.(type) {
 					case *ast.DeferStmt:
 						deferred[st.Call] = true
-						if s, ok := st.Call.Fun.(*ast.SelectorExpr); ok && s.Sel.Name == "Unlock" {
-							deferUnlock[rootOf(s.X)] = st.Pos()
+						if s, ok := st.Call.Fun.(*ast.SelectorExpr); ok && (s.Sel.Name == "Unlock" || s.Sel.Name == "RUnlock") {
+							if _, isG := names[rootOf(s.X)]; isG {
+								hasDeferUnlock = true
+							}
 						}
 					case *ast.CallExpr:
 						if deferred[st] {
 							return true
 						}
 						if s, ok := st.Fun.(*ast.SelectorExpr); ok {
-							switch s.Sel.Name {
-							case "Lock":
-								lockPos[rootOf(s.X)] = append(lockPos[rootOf(s.X)], st.Pos())
-							case "Unlock":
-								unlockPos[rootOf(s.X)] = append(unlockPos[rootOf(s.X)], st.Pos())
+							if _, isG := names[rootOf(s.X)]; isG {
+								switch s.Sel.Name {
+								case "Lock", "RLock":
+									locks = append(locks, region{from: st.Pos(), shared: s.Sel.Name == "RLock"})
+								case "Unlock", "RUnlock":
+									if len(locks) > 0 {
+										l := locks[len(locks)-1]
+										regions = append(regions, region{l.from, st.Pos(), l.shared})
+										locks = locks[:len(locks)-1]
+									}
+								}
 							}
 						}
 					}
 					return true
 				})
-				guarded := func(name string, pos token.Pos) bool {
-					// lexically after a Lock and (before an Unlock that follows it, or a deferred Unlock exists)
-					var last token.Pos = token.NoPos
-					for _, l := range lockPos[name] {
-						if l < pos && l > last {
-							last = l
-						}
+				if hasDeferUnlock {
+					for _, l := range locks {
+						regions = append(regions, region{l.from, fn.Body.End(), l.shared})
 					}
-					if last == token.NoPos {
-						return false
-					}
-					for _, u := range unlockPos[name] {
-						if u > last && u < pos {
-							return false
-						}
-					}
-					if _, ok := deferUnlock[name]; ok {
-						return true
-					}
-					for _, u := range unlockPos[name] {
-						if u > pos {
+				}
+				// a read is guarded inside any region; a write only inside an exclusive one
+				guarded := func(pos token.Pos, write bool) bool {
+					for _, r := range regions {
+						if r.from < pos && pos < r.to && !(write && r.shared) {
 							return true
 						}
 					}
 					return false
 				}
+				writes := map[*ast.Ident]bool{} // identifiers that are the root of an assignment target
+				var rootIdent func(e ast.Expr) *ast.Ident
+				rootIdent = func(e ast.Expr) *ast.Ident {
+					switch x := e.(type) {
+					case *ast.SelectorExpr:
+						return rootIdent(x.X)
+					case *ast.IndexExpr:
+						return rootIdent(x.X)
+					case *ast.StarExpr:
+						return rootIdent(x.X)
+					case *ast.ParenExpr:
+						return rootIdent(x.X)
+					case *ast.Ident:
+						return x
+					}
+					return nil
+				}
+				ast.Inspect(fn.Body, func(n ast.Node) bool {
+					switch st := n.(type) {
+					case *ast.AssignStmt:
+						for _, l := range st.Lhs {
+							if id := rootIdent(l); id != nil {
+								writes[id] = true
+							}
+						}
+					case *ast.IncDecStmt:
+						if id := rootIdent(st.X); id != nil {
+							writes[id] = true
+						}
+					}
+					return true
+				})
+				lockRecv := map[*ast.Ident]bool{} // identifiers used only as the receiver of Lock/Unlock
+				ast.Inspect(fn.Body, func(n ast.Node) bool {
+					if c, ok := n.(*ast.CallExpr); ok {
+						if s, ok := c.Fun.(*ast.SelectorExpr); ok {
+							switch s.Sel.Name {
+							case "Lock", "Unlock", "RLock", "RUnlock":
+								if id, ok := s.X.(*ast.Ident); ok {
+									lockRecv[id] = true
+								}
+							}
+						}
+					}
+					return true
+				})
 				ast.Inspect(fn.Body, func(n ast.Node) bool {
 					switch st := n.(type) {
 					case *ast.AssignStmt:
@@ -630,14 +729,18 @@ func globals(repo, out string) error {
 								g.mutated = true
 							}
 						}
-					case *ast.SelectorExpr:
-						// field access of a global struct (e.g. registry.table): count and check the lock
-						if id, ok := st.X.(*ast.Ident); ok {
-							if g, ok := names[id.Name]; ok && st.Sel.Name != "Lock" && st.Sel.Name != "Unlock" {
-								g.accessCount++
-								if !guarded(id.Name, st.Pos()) {
-									g.unguardedAcc++
-								}
+					case *ast.CallExpr:
+						if id, ok := st.Fun.(*ast.Ident); ok && id.Name == "delete" && len(st.Args) > 0 {
+							if g, ok := names[rootOf(st.Args[0])]; ok && !isInit {
+								g.mutated = true
+							}
+						}
+					case *ast.Ident:
+						// any use of the variable other than as the receiver of its own Lock/Unlock
+						if g, ok := names[st.Name]; ok && !lockRecv[st] && (st.Obj == nil || pkgObjs[st.Obj]) {
+							g.accessCount++
+							if !guarded(st.Pos(), writes[st]) {
+								g.unguardedAcc++
 							}
 						}
 					}
